@@ -288,7 +288,7 @@ def processOp (st : St) (pid : Pid) (kind : String) (now : Int) (detail effsS pr
   | _, _ => (st, .bad s!"unknown node {pid}")
 
 /-- cross-node oracles at the end of a run -/
-def endRun (st : St) (gst delta : Int) (now : Int) : Verdict :=
+def endRun (st : St) (gst delta : Int) (now : Int) (capped : Bool) (gstRound decRound : Int) : Verdict :=
   let honest := st.obs.filter (fun e => !e.2.faulty)
   let decs := honest.filterMap (fun e => e.2.decided.map (fun d => (e.1, d)))
   -- C01 agreement
@@ -313,8 +313,17 @@ def endRun (st : St) (gst delta : Int) (now : Int) : Verdict :=
       if !bad3.isEmpty then .oracle ("C03-malformed-decision-justification " ++ "; ".intercalate (bad3.map (fun d => s!"{d.1}:{justStr (some d.2)}")))
       else
         -- C06 liveness (live / sync modes only): all honest decided; measured by the harness' deadline
-        if (st.mode == "sync" || st.mode == "live") && decs.length < honest.length then
+        let live := st.mode == "sync" || st.mode == "live"
+        if live && !capped && decs.length < honest.length then
           .oracle s!"C06-undecided-after-stabilisation run={st.runNo} mode={st.mode} decided={decs.length}/{honest.length} gst={gst} now={now} delta={delta}"
+        else if live && !capped && decRound > max gstRound 0 + 40 then
+          .oracle s!"C06-round-bound-exceeded run={st.runNo} mode={st.mode} decided in round {decRound}, stabilised in round {gstRound}"
+        else if st.mode == "sync" && !capped &&
+            !(decs.all (fun d => honest.all (fun h => h.2.input == d.2.value))) then
+          .oracle s!"C02-unanimous-synchronous-run-decided-another-chain run={st.runNo}"
+        else if st.mode == "sync" && decRound > 0 && !capped then
+          .oracle s!"C06-synchronous-run-needed-more-than-one-round run={st.runNo} decround={decRound}"
+        else if live && capped then .ok s!"run_{st.mode}_capped"
         else .ok (s!"run_{st.mode}_" ++ (if decs.isEmpty then "nodecision" else if decs.length == honest.length then "alldecided" else "somedecided"))
 
 def step (st : St) (line : String) : St × Verdict :=
@@ -363,9 +372,10 @@ def step (st : St) (line : String) : St × Verdict :=
   | "badhonest" :: rest => (st, .oracle ("C07-honest-message-invalid-at-peer " ++ " ".intercalate rest))
   | "undecided" :: _ => (st, .ok "undecided")
   | "end" :: _ :: rest =>
-    match (getKV rest "gst").bind (·.toInt?), (getKV rest "delta").bind (·.toInt?), (getKV rest "now").bind (·.toInt?) with
-    | some g, some d, some n => (st, endRun st g d n)
-    | _, _, _ => (st, .bad "end")
+    match (getKV rest "gst").bind (·.toInt?), (getKV rest "delta").bind (·.toInt?), (getKV rest "now").bind (·.toInt?),
+          (getKV rest "capped").bind (·.toNat?), (getKV rest "gstround").bind (·.toInt?), (getKV rest "decround").bind (·.toInt?) with
+    | some g, some d, some n, some c, some gr, some dr => (st, endRun st g d n (c == 1) gr dr)
+    | _, _, _, _, _, _ => (st, .bad "end")
   | _ => (st, .bad "unknown line")
 
 end Driver.Gpbft
